@@ -67,6 +67,11 @@ func main() {
 				fmt.Fprintln(os.Stderr, err)
 				os.Exit(2)
 			}
+			if len(fc.Then) > 0 {
+				// a sequence: this process runs it from its first case on, exactly like the child did
+				raw, _ := json.Marshal(fc)
+				os.Exit(mc.FreshReplay(id, string(raw), p.Replay))
+			}
 			v.Kind, v.Case = fc.Kind, fc.Case
 		}
 		r := p.Replay[v.Kind]
